@@ -384,7 +384,8 @@ def oracle_C16(spec, tr):
         planned = expected_steps(sg)
         tested = list(range(first, b))
         sc = max([abs(x) for x in series] + [abs(thr), 1e-12])
-        if st['op'] == 'eq':
+        if st['op'] == 'eq' or st.get('exact'):
+            # exact hits are decided exactly when the threshold carries the reading's own unit
             nearflag = nearflag or any(0 < abs(series[j] - thr) <= 1e-9 * sc for j in tested)
         else:
             nearflag = nearflag or any(abs(series[j] - thr) <= 1e-9 * sc for j in tested)
@@ -502,6 +503,15 @@ def near_threshold(spec, tr):
     _, nf = oracle_C16(spec, tr)
     if nf:
         return 'stop-condition reading within rounding of its threshold'
+    # an exact hit of a threshold given in the reading's own unit is decided exactly by the code, but the
+    # exact-arithmetic model's reading differs from the float reading by rounding
+    n = n_inst(tr)
+    for sg in run_segments(spec, tr):
+        st = sg['op'].get('stop')
+        if st is not None and st.get('exact'):
+            series, thr = sensor_series(spec, tr, st)
+            if any(series[j] == thr for j in range(sg['a'], min(sg['b'], n))):
+                return 'stop-condition reading exactly on its threshold'
     return None
 
 
@@ -890,7 +900,7 @@ def replay_C12(ctx, case):
 def run_C16(ctx):
     prep()
     rng = ctx.rng
-    n = ctx.budget(80, 6000) * ctx.boost
+    n = ctx.budget(160, 6000) * ctx.boost
     specs = []
     for _ in range(n):
         spec = gen.gen_spec(rng, random_units=rng.random() < 0.7, sl_bias=0.2)
@@ -901,13 +911,26 @@ def run_C16(ctx):
         op, _, _ = gen.run_op(rng, dt_si=dt, steps=(total, total), unit=rng.choice(['sec', 'ms']))
         spec['ops'] = [op]
         # learn the reachable range of the sensed quantity from the unstopped run
-        tr0, _ = sim.simulate(spec)
+        tr0, b0 = sim.simulate(spec)
         if tr0['build_error'] or tr0['error']:
             continue
         st = random_stop(rng, spec)
         series, _ = sensor_series(spec, tr0, st)
-        where = rng.choice(['inside', 'inside', 'inside', 'before', 'beyond'])
+        where = rng.choice(['inside', 'inside', 'inside', 'before', 'beyond', 'exact', 'exact', 'exact'])
         vals = sorted(set(series[1:])) or [0.0]
+        if where == 'exact' and len(series) > 2:
+            # threshold exactly equal to a reading, in the reading's own unit: the comparison is exact, so
+            # the five operators are told apart (>= vs >, <= vs <, ==)
+            k = rng.randrange(1, len(series))
+            var = {'enc': 'angular position', 'tac': 'angular speed', 'amp': 'electric current'}[st['sensor']]
+            q = b0.E[st['idx'] % len(b0.E) if st['sensor'] != 'amp' else 0].time_variables[var][k]
+            st['thr'] = [q.value, q.unit]
+            st['op'] = ['ge', 'le', 'eq', 'gt', 'lt'][len(specs) % 5]      # every operator gets its exact hits
+            st['exact'] = True
+            op['stop'] = st
+            spec['_unstopped'] = True
+            specs.append(spec)
+            continue
         if where == 'inside' and len(vals) >= 2:
             k = rng.randrange(len(vals) - 1)
             thr = (vals[k] + vals[k + 1]) / 2
